@@ -43,7 +43,7 @@ func runC09(c *Ctx) {
 	// ---- R6: what "decodes as a YSSHCA KeyID" means (imported from C05) ----
 	c.WithRules(map[string]string{"R2.truth": "R6.decodes", "R3.gate": "R6.decodes"}, func() { keyidDecodeRules(c) })
 	// ---- R5 ----
-	if ah := m.Methods["AddHardCert"]; ah != nil {
+	if ah := m.Body("AddHardCert"); ah != nil {
 		c.Saw(ah)
 		hardCertHeld(c, m, ah, "R5.hardcert")
 	} else {
@@ -112,6 +112,16 @@ func runC09(c *Ctx) {
 						}
 					}
 				}
+				// by identity where the values can be followed: key = hash(X.Marshal()) with X result 0 of the cast
+				if kc, ok := w.canon(fn, mu.Key).(*ssa.Call); ok && len(kc.Call.Args) == 1 {
+					if mc, ok := w.canon(fn, kc.Call.Args[0]).(*ssa.Call); ok && strings.HasSuffix(calleeName(mc), "Certificate).Marshal") && len(mc.Call.Args) >= 1 {
+						if ex, ok := w.canon(fn, mc.Call.Args[0]).(*ssa.Extract); ok && ex.Index == 0 {
+							if cv, ok := ex.Tuple.(*ssa.Call); ok && strings.HasSuffix(calleeName(cv), "sshutils/key.CastSSHPublicKeyToCertificate") {
+								cast = cv
+							}
+						}
+					}
+				}
 				if cast == nil {
 					c.Bad("R1.cachewrites", key+"|cache key is the hash of a cast certificate", w.Pos(mu.Pos()), "the cache key is not hash(cert.Marshal()) of a certificate obtained from the cast: "+w.Short(mu.Key))
 					return
@@ -144,7 +154,7 @@ func runC09(c *Ctx) {
 	// ---- R2 ----
 	tables := map[string]map[string]bool{}
 	for _, name := range []string{"List", "Signers"} {
-		fn := m.Methods[name]
+		fn := m.Body(name)
 		if fn == nil {
 			c.Unresolved("R2.listing", "method "+name)
 			continue
@@ -617,14 +627,14 @@ func signTable(c *Ctx, m *shimModel) {
 	})
 	// the key-not-found sentinel: the package error variable AddHardCert returns when no listed key matches
 	notFoundSentinel := ""
-	if ah := m.Methods["AddHardCert"]; ah != nil {
+	if ah := m.Body("AddHardCert"); ah != nil {
 		for _, r := range liveReturns(ah) {
 			for _, lf := range w.Leaves(r.Results[0], r) {
 				if ex := w.Expr(lf.Val); strings.HasPrefix(ex, "global:"+RepoMod+"/"+shimPkg+".") {
-					if _, known := m.lockedKnown(ah, r.Block()); known {
-						if v, _ := m.lockedKnown(ah, r.Block()); !v {
-							notFoundSentinel = ex
-						}
+					// not the refusal under the lock flag (in a delegated body the flag was tested by the caller)
+					v, known := m.lockedKnown(ah, r.Block())
+					if (known && !v) || (!known && ah != m.Methods["AddHardCert"]) {
+						notFoundSentinel = ex
 					}
 				}
 			}
